@@ -1,8 +1,9 @@
 /-
 C18 — proofs about the text model (`Halo/Text.lean`): digit lemmas for `render` / `valOf`, the exact
 success condition of `parseAux` / `parseDigits`, the shape of `splitDot`, `trimEnd0`, and from these
-the render/parse round trips, canonical forms, the characterisation of accepted decimal strings and
-the JSON round trips.
+the render/parse round trips, canonical forms, the characterisation of accepted decimal strings, the
+JSON round trips (JSON decoding with escape sequences: unescaping is the identity on rendered numerals
+and transparent for accepted ones) and the width conversions.
 -/
 import Halo.Proofs.Basic
 import Halo.Text
@@ -396,15 +397,145 @@ theorem dec_render_canonical (v : Nat) :
 theorem dec_parse_render {v : Nat} (h : v < U) : decParse (decRender v) = .ok v :=
   dec_parse_ok_iff.2 ⟨(dec_render_canonical v).2, h⟩
 
-/-! ### JSON and width conversions -/
+/-! ### JSON -/
 
-theorem jsonDec_enc {s : List Nat} (h : ∀ b ∈ s, 32 ≤ b ∧ b ≠ 34 ∧ b ≠ 92 ∧ b < 127) :
+theorem utf8From_ascii {s : List Nat} (h : ∀ b ∈ s, b < 128) : utf8From 0 0 0 s = true := by
+  induction s with
+  | nil => rfl
+  | cons b t ih =>
+    have hb : b < 128 := h b (by simp)
+    simp only [utf8From, if_pos hb]
+    exact ih (fun c hc => h c (by simp [hc]))
+
+theorem utf8Valid_ascii {s : List Nat} (h : ∀ b ∈ s, b < 128) : utf8Valid s = true :=
+  utf8From_ascii h
+
+/-- without a backslash the body is handed over as it is (if it is UTF-8) -/
+theorem jsonUnescape_noesc {s : List Nat} (h : 92 ∉ s) :
+    jsonUnescape s = if utf8Valid s then .ok s else .error .err := by
+  unfold jsonUnescape
+  rw [if_neg (by simpa using h)]
+
+/-- `jsonUnescape` is the identity on ASCII texts without a backslash -/
+theorem jsonUnescape_id {s : List Nat} (h : ∀ b ∈ s, b ≠ 92 ∧ b < 128) : jsonUnescape s = .ok s := by
+  rw [jsonUnescape_noesc (fun hm => (h 92 hm).1 rfl), if_pos (utf8Valid_ascii (fun b hb => (h b hb).2))]
+
+/-- the unescaping loop itself copies texts without backslash and control bytes -/
+theorem unescFrom_id {s : List Nat} (h : ∀ b ∈ s, 32 ≤ b ∧ b ≠ 92) :
+    unescFrom .normal none s = .ok s := by
+  induction s with
+  | nil => rfl
+  | cons b t ih =>
+    obtain ⟨h1, h2⟩ := h b (by simp)
+    have ht := ih (fun c hc => h c (by simp [hc]))
+    simp only [unescFrom, if_neg (show ¬ b ≤ 31 by omega), if_neg h2, ht, emit, Option.isSome_none,
+      Bool.false_eq_true, if_false, List.singleton_append]
+
+/-- so does `unescape`: on printable ASCII without a backslash the owned and the borrowed path agree -/
+theorem unescape_id {s : List Nat} (h : ∀ b ∈ s, 32 ≤ b ∧ b ≠ 92 ∧ b < 128) : unescape s = .ok s := by
+  unfold unescape
+  rw [unescFrom_id (fun b hb => ⟨(h b hb).1, (h b hb).2.1⟩)]
+  show (if utf8Valid s = true then Except.ok s else Except.error Err.err) = Except.ok s
+  rw [if_pos (utf8Valid_ascii (fun b hb => (h b hb).2.2))]
+
+theorem jsonScan_clean {s : List Nat} (h : ∀ b ∈ s, b ≠ 34 ∧ b ≠ 92) (t : List Nat) :
+    jsonScan false (s ++ 34 :: t) = some (s, t) := by
+  induction s with
+  | nil => simp [jsonScan]
+  | cons b u ih =>
+    obtain ⟨h1, h2⟩ := h b (by simp)
+    have hu := ih (fun c hc => h c (by simp [hc]))
+    simp only [List.cons_append, jsonScan, h1, false_and, if_false, if_neg h2, hu]
+
+/-- the scanner only cuts the text at a quote -/
+theorem jsonScan_some {e : Bool} {l body tail : List Nat} (h : jsonScan e l = some (body, tail)) :
+    l = body ++ 34 :: tail := by
+  induction l generalizing e body with
+  | nil => simp [jsonScan] at h
+  | cons b bs ih =>
+    unfold jsonScan at h
+    split at h
+    · rename_i hq
+      injection h with h
+      injection h with h1 h2
+      subst h1 h2
+      simp [hq.1]
+    · cases hs : jsonScan (if b = 92 then !e else false) bs with
+      | none => rw [hs] at h; cases h
+      | some p =>
+        obtain ⟨bd, tl⟩ := p
+        rw [hs] at h
+        injection h with h
+        injection h with h1 h2
+        subst h1 h2
+        rw [ih hs]; rfl
+
+theorem isJsonWs_34 : isJsonWs 34 = false := rfl
+
+theorem jsonDec_enc {s : List Nat} (h : ∀ b ∈ s, b ≠ 34 ∧ b ≠ 92 ∧ b < 128) :
     jsonDec (jsonEnc s) = .ok s := by
-  unfold jsonDec jsonEnc
-  simpa [isJsonWs] using h
+  have hj : jsonEnc s = 34 :: (s ++ 34 :: []) := by simp [jsonEnc]
+  unfold jsonDec
+  rw [hj, List.dropWhile_cons_of_neg (by simp [isJsonWs_34])]
+  simp only [if_true, jsonScan_clean (fun b hb => ⟨(h b hb).1, (h b hb).2.1⟩), List.all_nil]
+  exact jsonUnescape_id (fun b hb => (h b hb).2)
+
+theorem all_takeWhile (p : Nat → Bool) (l : List Nat) : (l.takeWhile p).all p = true := by
+  induction l with
+  | nil => rfl
+  | cons a t ih =>
+    by_cases ha : p a = true
+    · simp [ha, ih]
+    · simp [ha]
+
+/-- an accepted JSON text is whitespace, a quoted body, whitespace; the result is the unescaped body -/
+theorem jsonDec_ok {j s : List Nat} (h : jsonDec j = .ok s) :
+    ∃ pre body post, j = pre ++ [34] ++ body ++ [34] ++ post ∧
+      pre.all isJsonWs = true ∧ post.all isJsonWs = true ∧ jsonUnescape body = .ok s := by
+  unfold jsonDec at h
+  have hsplit := List.takeWhile_append_dropWhile (p := isJsonWs) (l := j)
+  have hpre : (j.takeWhile isJsonWs).all isJsonWs = true := all_takeWhile _ j
+  cases hd : j.dropWhile isJsonWs with
+  | nil => rw [hd] at h; cases h
+  | cons b rest =>
+    rw [hd] at h hsplit
+    simp only at h
+    by_cases hb : b = 34
+    · rw [if_pos hb] at h
+      cases hs : jsonScan false rest with
+      | none => rw [hs] at h; cases h
+      | some p =>
+        obtain ⟨body, tail⟩ := p
+        rw [hs] at h
+        simp only at h
+        by_cases ht : tail.all isJsonWs = true
+        · rw [if_pos ht] at h
+          refine ⟨j.takeWhile isJsonWs, body, tail, ?_, hpre, ht, h⟩
+          generalize j.takeWhile isJsonWs = pre at hsplit
+          rw [← hsplit, hb, jsonScan_some hs]; simp
+        · rw [if_neg ht] at h; cases h
+    · rw [if_neg hb] at h; cases h
+
+/-- escapes are transparent: an accepted JSON decimal is the number its *unescaped* body denotes -/
+theorem json_parse_denotes_dec {j : List Nat} {v : Nat} (h : (jsonDec j >>= decParse) = .ok v) :
+    ∃ pre body post s, j = pre ++ [34] ++ body ++ [34] ++ post ∧
+      pre.all isJsonWs = true ∧ post.all isJsonWs = true ∧
+      jsonUnescape body = .ok s ∧ decParse s = .ok v ∧ denote s = some v ∧ v < U := by
+  obtain ⟨s, hs, hp⟩ := (bind_ok_iff _ _ _).1 h
+  obtain ⟨pre, body, post, hj, h1, h2, hu⟩ := jsonDec_ok hs
+  exact ⟨pre, body, post, s, hj, h1, h2, hu, hp, (dec_parse_ok_iff.1 hp).1, (dec_parse_ok_iff.1 hp).2⟩
+
+theorem json_parse_denotes_uint {j : List Nat} {v : Nat} (h : (jsonDec j >>= uintParse) = .ok v) :
+    ∃ pre body post s, j = pre ++ [34] ++ body ++ [34] ++ post ∧
+      pre.all isJsonWs = true ∧ post.all isJsonWs = true ∧
+      jsonUnescape body = .ok s ∧ parseDigits s = .ok v ∧ s.all isDigit = true ∧ valOf s = v ∧ v < U := by
+  obtain ⟨s, hs, hp⟩ := (bind_ok_iff _ _ _).1 h
+  obtain ⟨pre, body, post, hj, h1, h2, hu⟩ := jsonDec_ok hs
+  obtain ⟨hd, hv, hlt⟩ := uint_parse_ok_iff.1 hp
+  exact ⟨pre, body, post, s, hj, h1, h2, hu, hp, hd, hv, hlt⟩
 
 theorem printable_of_digit {b : Nat} (h : isDigit b = true ∨ b = 46) :
-    32 ≤ b ∧ b ≠ 34 ∧ b ≠ 92 ∧ b < 127 := by
+    b ≠ 34 ∧ b ≠ 92 ∧ b < 128 := by
   rcases h with h | h
   · rw [isDigit_iff] at h; omega
   · omega
@@ -430,8 +561,54 @@ theorem uint_json_roundtrip {v : Nat} (h : v < U) :
   rw [jsonDec_enc (fun b hb => printable_of_digit (Or.inl (render_digits v b hb)))]
   exact uint_parse_render h
 
+/-! ### width conversions -/
+
 theorem u128_roundtrip {w : Nat} (h : w < W) : toU128 (ofU128 w) = .ok w := by
   rw [ofU128_eq]
   exact (toU128_ok (Nat.lt_trans h W_lt_U)).2 ⟨h, rfl⟩
+
+/-- going through the text changes nothing: `Decimal256 → Decimal` is the limb check alone -/
+theorem decToStd_eq {v : Nat} (h : v < U) : decToStd v = toU128 v := by
+  unfold decToStd
+  rw [dec_parse_render h]
+  change (match toU128 v with
+    | .error _ => .error .abort
+    | .ok _ => if v < W then .ok v else .error .abort) = toU128 v
+  by_cases hw : v < W
+  · rw [(toU128_ok h).2 ⟨hw, rfl⟩]; simp [hw]
+  · cases ht : toU128 v with
+    | ok r => exact absurd ((toU128_ok h).1 ht).1 hw
+    | error e =>
+      have : e = .abort := by
+        unfold toU128 Limbs.toU128 at ht
+        split at ht
+        · cases ht
+        · injection ht with ht; exact ht.symm
+      rw [this]
+
+theorem dec_to_std_iff {v r : Nat} (h : v < U) : decToStd v = .ok r ↔ v < W ∧ r = v := by
+  rw [decToStd_eq h]; exact toU128_ok h
+
+theorem dec_to_std_abort {v : Nat} (h : v < U) : decToStd v = .error .abort ↔ W ≤ v := by
+  constructor
+  · intro he
+    by_contra hw
+    have := (dec_to_std_iff h).2 ⟨Nat.lt_of_not_le hw, rfl⟩
+    rw [he] at this; cases this
+  · intro hw
+    unfold decToStd
+    cases ht : Limbs.toU128 (Limbs.ofNat v) with
+    | error e => rfl
+    | ok r =>
+      have : toU128 v = .ok r := ht
+      exact absurd ((toU128_ok h).1 this).1 (by omega)
+
+theorem dec_from_std_id {a : Nat} (h : a < W) : decFromStd a = .ok a := by
+  unfold decFromStd
+  rw [dec_parse_render (Nat.lt_trans h W_lt_U)]
+
+theorem dec_std_roundtrip {a : Nat} (h : a < W) : (decFromStd a >>= decToStd) = .ok a := by
+  rw [dec_from_std_id h]
+  exact (dec_to_std_iff (Nat.lt_trans h W_lt_U)).2 ⟨h, rfl⟩
 
 end Halo.C18
